@@ -78,6 +78,8 @@ PairPlan == [w \in DOMAIN LazyWorlds |-> {"single", "pair", "seq"}]
 \* for M(K) in the quick tier: the mixes with a request whose outcome M(K) can change
 KQuickPlan == [plain |-> {"single", "pairwith", "seqwith"}, godir |-> {"single"}, registered |-> {"single"}]
 SmallPlan == [plain |-> {"pairsel", "seq"}]
+\* one goroutine only (access logs of single requests and of sequences: C02 borrows them)
+SeqPlan == [w \in DOMAIN LazyWorlds |-> {"single", "seq"}]
 TriplePlan == [plain |-> {"triple", "pairseq"}]
 
 MCInit == \E w \in DOMAIN Plan : \E m \in MixSet(Plan[w]) : mix = m /\ InitWith(w, ProgOf(m))
